@@ -69,6 +69,14 @@ def shares(pid):
             mc_cfgs=SHARES_MC, gen_cfgs=SHARES_GEN, reset_op=SHARES_RESET,
             level_note="", design_ref="5/C11",
             assumptions=[
+                "every user operation is a real EVM transaction (EvmKeeper.EthereumTx, real interpreter/state DB) to the staking precompile signed by the acting delegator's key; it runs in a cache that is dropped when execution panics (as baseapp.runTx does) and such a transaction counts as refused",
+                "one model unit = 100 FX (one unit of consensus power); genesis validators hold a 100 FX self-delegation, which the projection subtracts from the validator totals; commission 0",
+                "RewardTick = the next block begins: 10 FX of fees in the fee collector, then the application's real BeginBlocker (mint, distribution with both validators voting at equal power, slashing, ...) on the branch; EndBlocker / validator-set updates are not run between operations",
+                "Slash = the next block begins with a 50% slash of the validator's current power through the real staking keeper (distribution hook included), infraction height = current height, so unbonding entries and redelegations are not slashed; at most one slash per validator (environment choice that keeps the exchange rate a power of two)",
+                "delegators are externally owned accounts with the default withdraw address and ample funds (delegateV2 is never refused for lack of funds); contract delegators are covered by C09/C10's caller checks, not here",
+                "unbonding entries and redelegations do not mature between operations (the drain oracle advances time past the unbonding period on a throw-away branch and runs the staking end-blocker); the 7-entries limit is outside the bounds",
+                "observation registers: inv = first broken route of CrisisKeeper.Routes() (all registered staking, distribution, bank, gov, ibc-transfer invariants) evaluated on a branch after EVERY executed transition; drain = every delegator withdraws and fully undelegates everywhere, entries mature, invariants again; pay = for both parties of a transfer: balance delta = rewards owed before - rewards owed after (distribution query); all three are projected into the state and decided by TLC formulas",
+                "projection: delegations, validators, unbonding delegations, redelegations through the SDK staking keeper's getters (plain store reads), allowances by raw read of the fx staking store (prefix 0x90), rewards through the distribution querier on a branch",
             ])
     return run
 
@@ -76,7 +84,7 @@ def shares(pid):
 specs.REGISTRY["C11"] = shares("C11")
 
 specs.MANIFEST.update({
- "C11": dict(category="model_checking", technique="TLA+ spec Shares.tla: TLC exhaustive model check + replay of every TLC-generated transition as real EVM transactions to the staking precompile + TLC evaluation of the C11 formulas on recorded real behaviours",
-             text="",
-             note="", ref="5 (C11)"),
+ "C11": dict(category="model_checking", technique="TLA+ spec Shares.tla: TLC exhaustive model check + replay of every TLC-generated transition as real EVM transactions to the staking precompile on a chain with real staking/distribution/mint/slashing + TLC evaluation of the C11 formulas (incl. SDK crisis invariants, reward pay-out equation and full-drain availability observed on the real state) on recorded real behaviours",
+             text="Shares.tla models delegations of three accounts at two validators, allowances, accrued-reward flags, incoming redelegations, unbonding balances and the validators' shares/tokens/exchange rate under delegateV2, undelegateV2, redelegateV2, withdraw, approveShares, transferShares (including to oneself, full and partial, new and existing recipient), transferFromShares, reward-producing blocks and a 50% validator slash. TLC checks on all bounded interleavings: shares sum to the validator's total, tokens back shares at the exchange rate, a transfer moves exactly n from sender to recipient (identity for sender = recipient) and never changes validator totals / unbonding / redelegations, transferFrom spends exactly the amount of an allowance that covers it, the sender has no incoming redelegation, both parties are paid. Every generated transition is executed as a real EVM transaction on a branch of the real multistore and the projected state compared; after every transition the registered crisis invariants, the reward pay-out equation of the step and a full drain (everyone withdraws and fully undelegates, entries mature, invariants again) are evaluated on the real state and projected into the state, so that TLC decides them on the recorded real behaviours.",
+             note="bounded: 3 externally-owned delegators, 2 validators, amounts 1-2 units of 100 FX, <=3 (quick) / <=4 (thorough) accepted operations plus one arbitrary further operation, <=2 reward blocks, one 50% slash per validator at the current height (no slashing of unbonding entries/redelegations), no maturing between operations; rejected operations sampled per state (2 quick / 10 thorough); trusted: TLC, the projection (SDK getters + raw allowance reads), the SDK's own invariants as oracle", ref="5 (C11)"),
 })
